@@ -77,7 +77,7 @@ P_INVIVO = {"quick": 0.004, "thorough": 0.015}
 
 
 def gen_knobs(rng, tier):
-    if rng.random() < P_INVIVO.get(tier, 0.006):
+    if rng.random() < float(os.environ.get("VERIF_P_INVIVO") or P_INVIVO.get(tier, 0.006)):
         return {"population": "invivo", "family": "invivo"}
     names = sorted(FAMILY_NAMES)
     fam = rng.choice(names)
